@@ -86,13 +86,22 @@ def richardson_jac(f, z, rel=1e-3):
     return J, f0
 
 
-def richardson_dir(f, x, c, h):
-    """d f / d x_c by central differences + Richardson; f returns an array"""
+class IllConditioned(FloatingPointError):
+    """the two finite-difference levels disagree too much for the extrapolated value to be trusted"""
+
+
+def richardson_dir(f, x, c, h, check=1e-3):
+    """d f / d x_c by central differences + Richardson; f returns an array.  Raises IllConditioned when the
+    Richardson correction exceeds `check` relative (the function is not smooth enough at this step size)"""
     x = np.asarray(x, float)
     def d(hh):
         e = np.zeros(len(x)); e[c] = hh
         return (f(x + e) - f(x - e)) / (2 * hh)
-    return (4 * d(h / 2) - d(h)) / 3
+    d1, d2 = d(h), d(h / 2)
+    est = (4 * d2 - d1) / 3
+    if check is not None and np.max(np.abs(d2 - d1)) > check * (1e-6 + np.max(np.abs(est))):
+        raise IllConditioned
+    return est
 
 
 def ref_solve(rhs, x0, t0, ts, rtol=1e-12, atol=1e-12, max_norm=1e6):
@@ -100,12 +109,13 @@ def ref_solve(rhs, x0, t0, ts, rtol=1e-12, atol=1e-12, max_norm=1e6):
     from scipy.integrate import solve_ivp
     ts = np.asarray(ts, float)
     def ev(t, x):
-        return 1e6 - np.max(np.abs(x))
+        return max_norm - np.max(np.abs(x))
     ev.terminal = True
     r = solve_ivp(rhs, (t0, float(ts[-1])), np.asarray(x0, float), t_eval=ts, method="DOP853", rtol=rtol, atol=atol, events=ev)
-    if (not r.success) or r.y.shape[1] != len(ts) or not np.all(np.isfinite(r.y)) or np.max(np.abs(r.y)) > max_norm:
+    yy = np.asarray(r.y, float)
+    if (not r.success) or r.status != 0 or yy.ndim != 2 or yy.shape[1] != len(ts) or not np.all(np.isfinite(yy)) or np.max(np.abs(yy)) > max_norm:
         return None
-    return r.y.T
+    return yy.T
 
 
 def close_arr(a, b, rel, abs_):
